@@ -152,10 +152,10 @@ def congruence_rules(ctx, lib):
                 r.fail(f.qualname, "einsum", f.file, c.lineno, fname, f"einsum('{spec}', {', '.join(ops)}) is not of the congruence shape sum_p w X^T S X with the same X on both sides")
 
 
-def rank_rules(ctx, lib, gl):
+def rank_rules(ctx, lib, gl, only_stiffness=False):
     """R2.2 counting bound on a two-element patch."""
     repo = ctx.repo
-    r = ctx.rule("R2.2", "quadrature rich enough: 2*nPg*s >= Ndof(two-element patch) - kernel (necessary for the physical kernel)", min_instances=19 * 3 - 4)
+    r = ctx.rule("R2.2", "quadrature rich enough: 2*nPg*s >= Ndof(two-element patch) - kernel (necessary for the physical kernel)", min_instances=(19 * 2 - 4) if only_stiffness else (19 * 3 - 4))
     fac = repo.method(GAUSS, "Gauss_factory")
     out = {}
     for name in lib.names((1, 2, 3)):
@@ -171,6 +171,8 @@ def rank_rules(ctx, lib, gl):
             ("mass", "mass", 1, 1, 0),
         ]
         for label, mt, dof_n, s, kernel in problems:
+            if only_stiffness and label == "mass":
+                continue
             r.instance(fn=fac.qualname)
             res = gl.factory(name, mt)
             if res[0] == "raise":
